@@ -423,6 +423,6 @@ fn main() {
     ck.assume("pair inputs: the first sequence is truncated to min(|E1|, window) and repeated in every chunk (documented); a pair whose second sequence yields no tokens produces no chunks");
     ck.assume("overlap >= window (window = max_chunk_len - special tokens [- first-sequence length for pairs]) is answered with the documented assertion 'overlap < chunk_size': recorded as rejected, not as a violation");
     ck.set_threads(16);
-    ck.prop("chunks", ck.pick(200_000, 6_000_000), case, oracle);
+    ck.prop("chunks", ck.pick(200_000, 4_000_000), case, oracle);
     ck.finish();
 }
